@@ -181,6 +181,8 @@ def strict_eq(a, b):
     """Type-strict deep equality: 1 != True, 1 != 1.0, Decimal('1.0') != 1.0; dict key order ignored."""
     if type(a) is not type(b):
         return False
+    if isinstance(a, decimal.Decimal) and a.is_nan():
+        return b.is_nan()
     if isinstance(a, dict):
         return a.keys() == b.keys() and all(strict_eq(a[k], b[k]) for k in a)
     if isinstance(a, (list, tuple)):
@@ -199,6 +201,8 @@ def value_eq(a, b):
     if isinstance(a, bool) or isinstance(b, bool):
         return type(a) is type(b) and a == b
     if isinstance(a, NUM) and isinstance(b, NUM):
+        if a != a or b != b:        # NaN (float or Decimal) equals NaN here
+            return a != a and b != b
         if isinstance(a, float) or isinstance(b, float):
             try:
                 return float(a) == float(b)
